@@ -55,15 +55,18 @@ func LinearAttempt(ctx context.Context, rate time.Duration, count int) <-chan ti
 		defer ticker.Stop()
 		for i := 0; i < count; {
 			var t time.Time
+			verifAt("attempt.tw0", nil, i)
 			select {
 			case <-ctx.Done():
 				return
 			case t = <-ticker.C:
 			}
+			verifAt("attempt.tw1", nil, i)
 			if ctx.Err() != nil {
 				// guarantee at most one tick after context cancel
 				return
 			}
+			verifAt("attempt.send", nil, i)
 			select {
 			case c <- t:
 				i++
